@@ -26,7 +26,7 @@ Reset ==
   /\ op' = [o \in Ops |-> [pc |-> "idle", id |-> 0, result |-> "none", frame |-> 0]]
   /\ corr' = 0 /\ inflight' = 0 /\ rlock' = 0 /\ closed' = FALSE
   /\ reqs' = <<>> /\ stream' = <<>> /\ deliv' = <<>> /\ peerClosed' = FALSE
-  /\ rpos' = 0 /\ mis' = FALSE /\ faults' = [cuts |-> 0, timeouts |-> 0]
+  /\ rpos' = 0 /\ mis' = FALSE /\ faults' = [cuts |-> 0, timeouts |-> 0, wrongids |-> 0]
 
 Skip == UNCHANGED <<op, corr, inflight, rlock, closed, reqs, stream, deliv, peerClosed, rpos, mis, faults>>
 
@@ -34,7 +34,9 @@ Skip == UNCHANGED <<op, corr, inflight, rlock, closed, reqs, stream, deliv, peer
 Reply(e) ==
   LET o == e.id IN
   /\ ~peerClosed /\ Len(stream) < Len(reqs) /\ reqs[Len(stream) + 1] = o
-  /\ stream' = Append(stream, [op |-> o, kerr |-> e.kerr])
+  /\ stream' = Append(stream, IF "rid" \in DOMAIN e /\ e.rid # e.id
+                                 THEN [op |-> e.rid, kerr |-> FALSE, forged |-> TRUE]     \* a foreign correlation id
+                                 ELSE [op |-> o, kerr |-> e.kerr, forged |-> FALSE])
   /\ deliv' = Append(deliv, IF e.cut < 0 \/ e.cut >= e.len THEN "full"
                             ELSE IF e.cut >= 8 THEN "hdr" ELSE "none")
   /\ UNCHANGED <<op, corr, inflight, rlock, closed, reqs, rpos, mis, faults, peerClosed>>
